@@ -108,8 +108,24 @@ def obligations(tier):
             specs.append({"op": op, "kind": "frame", "groupby": g, "window": ("n", 2)})
         for op in ("sum", "count"):
             specs.append({"op": op, "kind": "frame", "groupby": g, "window": ("value", 2)})
+    big = [(1, 2, 3), (2, 1, 3), (1, 1, 3), (1, 2, 4)] if q else [(1, 2, 3), (2, 1, 3), (1, 1, 3), (1, 2, 4), (2, 3, 4), (1, 3, 2, 4)]
+    if q:
+        # N=3 only with the "larger batch after smaller ones" patterns (several whole frames leave at once)
+        specs += [{"op": "sum", "window": ("n", 3), "bigonly": True}, {"op": "count", "window": ("n", 3), "bigonly": True},
+                  {"op": "sum", "kind": "frame", "groupby": "stream", "window": ("n", 3), "bigonly": True}]
     for spec in specs:
         gb = bool(spec.get("groupby"))
+        if spec["window"][0] == "n" and spec["op"] in ("sum", "count") and (not gb or spec["groupby"] == "stream"):
+            for lens in (big if not gb else big[:1]):
+                n = sum(lens)
+                nsym = n + (n if gb else 0)
+                obls.append({"name": "%s/%s=%d%s/lens=%s" % (spec["op"], spec["window"][0], spec["window"][1],
+                                                             "/by-" + spec["groupby"] if gb else "",
+                                                             "-".join(map(str, lens))),
+                             "body": "body", "pre": "pre", "shard": {"spec": spec, "lens": list(lens)},
+                             "types": ["int"] * nsym, "budget": B})
+        if spec.get("bigonly"):
+            continue
         for lens in pats:
             n = sum(lens)
             if q and (gb or spec["window"][0] == "value" or spec["op"] in ("var", "value_counts")) and n > 3:
